@@ -23,10 +23,20 @@ func C12LoaderHook() {
 	// the output path names dir/setup.gen.go under any of several spellings of the directory, or
 	// a file in another directory (another package: outside what the loader lists)
 	abs, _ := filepath.Abs("dir/setup.gen.go")
-	spellings := []string{"dir/setup.gen.go", "./dir/setup.gen.go", "dir/../dir/setup.gen.go", abs, "elsewhere/setup.gen.go"}
+	// "link" is another name of a directory that may or may not be dir itself (a symbolic link)
+	spellings := []string{"dir/setup.gen.go", "./dir/setup.gen.go", "dir/../dir/setup.gen.go", abs, "elsewhere/setup.gen.go", "link/setup.gen.go"}
 	spelling := vrt.Choose("output-path-spelling", len(spellings))
 	dst := spellings[spelling]
 	sameDir := spelling != 4
+	absDir, _ := filepath.Abs("dir")
+	absLink, _ := filepath.Abs("link")
+	absElse, _ := filepath.Abs("elsewhere")
+	vrt.SetEnv("fs.exists:"+absDir, true)
+	vrt.SetEnv("fs.exists:"+absLink, true)
+	vrt.SetEnv("fs.exists:"+absElse, true)
+	if spelling == 5 {
+		sameDir = vrt.Bool("link-names-the-input-directory")
+	}
 	vrt.SetEnv("fs", "symbolic")
 	vrt.SetEnv("load", "symbolic")
 	dstExists := vrt.Bool("output-file-exists")
@@ -41,6 +51,8 @@ func C12LoaderHook() {
 		return "fs.same:" + a + "|" + b
 	}
 	vrt.SetEnv(pair(other, src), false)
+	vrt.SetEnv(pair(absDir, absLink), sameDir && spelling == 5)
+	vrt.SetEnv(pair(absDir, absElse), false)
 	// -out may name the input file itself
 	outIsIn := vrt.Bool("output-is-the-input-file")
 	vrt.SetEnv(pair(dst, src), outIsIn)
@@ -74,6 +86,12 @@ func C12LoaderHook() {
 	pkgClauseFailed := vrt.Bool("parsedisk.err(" + src + ")")
 	for i := 0; i < vrt.EffectCount(); i++ {
 		switch vrt.EffectOp(i) {
+		case "load.call":
+			// the loader works in the directory of the INPUT file, whatever the working directory
+			// is, and is asked for the file by its absolute name (C13: same result from any cwd)
+			absSrc, _ := filepath.Abs(src)
+			vrt.Assert("loader-queried-by-absolute-input-path", vrt.EffectStr(i, 0) == "file="+absSrc)
+			vrt.Assert("loader-runs-in-the-input-directory", vrt.EffectStr(i, 1) == filepath.Dir(absSrc))
 		case "load.overlay":
 			// what the loader is told about the output path: an empty file of the input's package,
 			// under the path's absolute name, whatever the spelling - and nothing else
